@@ -177,6 +177,49 @@ def extract(repo):
     return {'items': items, 'notes': notes}
 
 
+SUBST = [(r'\bself\.lc\(', 'self.lc32('), (r'\bself\.end_col\(', 'self.end_col32('), (r'\bself\.last\(\)', 'self.last32()'), (r'\bself\.tlen\(\)', 'self.tlen32()'),
+         (r'\bself\.bnd\(', 'self.bnd32('), (r'\bself\.p4lc\(', 'self.p4lc32('), (r'\blex_le\(', 'lex_le32(')]
+BRIDGE_PROOF = {'line_col_for_pos': 'lemma_bridge_pos(self, pos.raw);', 'end_col_for_line': 'lemma_bridge_line(self, line as int);',
+                'last_line': 'lemma_bridge_line(self, 0);', 'pos_for_line_col': 'lemma_bridge_line(self, line as int);'}
+
+
+def _subst(t):
+    for rx, rep in SUBST:
+        t = re.sub(rx, rep, t)
+    return t
+
+
+def bridge():
+    """wrappers around the real functions carrying, textually, the contracts that the semtok and conv units ASSUME for their LineMap
+    stand-ins, and the assumed predicate LineMap::ok as a lemma (see the end of contracts/lmap_prelude.rs)"""
+    verif = os.path.dirname(os.path.dirname(os.path.abspath(__file__)))
+    out, names = [], []
+    for unit in ('semtok', 'conv'):
+        text = open(os.path.join(verif, 'contracts/%s_prelude.rs' % unit)).read()
+        for line in text.split('\n'):
+            mm = re.match(r'\s*pub fn (\w+)\(&self(?:, (.*?))?\) -> \((r: .*?)\)\s+(?:requires (.*?)\s+)?ensures (.*?) \{ unimplemented!\(\) \}\s*$', line)
+            if not mm or mm.group(1) not in BRIDGE_PROOF:
+                continue
+            nm, params, ret, req, ens = mm.groups()
+            args = ', '.join(a.split(':')[0].strip() for a in (params or '').split(',') if a.strip())
+            out.append('    // the contract assumed for LineMap::%s in contracts/%s_prelude.rs, proved here for the real function\n'
+                       '    fn bridge_%s_%s(&self%s) -> (%s)\n        requires self.wf()%s\n        ensures %s\n    { proof { %s } self.%s(%s) }\n'
+                       % (nm, unit, unit, nm, (', ' + params) if params else '', ret, (', ' + _subst(req)) if req else '', _subst(ens), BRIDGE_PROOF[nm], nm, args))
+            names.append('%s:%s' % (unit, nm))
+        if unit == 'semtok':
+            om = re.search(r'pub open spec fn ok\(&self\) -> bool \{\n(.*?)\n    \}', text, re.S)
+            if not om:
+                raise AnchorLost('contracts/semtok_prelude.rs: LineMap::ok not found')
+            out.append('    // the predicate LineMap::ok that the encoder unit assumes, as a lemma\n    proof fn bridge_semtok_ok(&self)\n        requires self.wf()\n        ensures ({\n%s\n        })\n'
+                       '    {\n        assert forall|a: u32| a <= self.tlen32() && self.bnd32(a) implies (#[trigger] self.lc32(a)).0 <= self.last32() && self.lc32(a).1 <= self.end_col32(self.lc32(a).0) && self.lc32(a).0 == self.lc(a as int).0 && self.lc32(a).1 == self.lc(a as int).1 by { lemma_bridge_pos(self, a); }\n'
+                       '        assert forall|a: u32, b: u32| a <= b <= self.tlen32() && self.bnd32(a) && self.bnd32(b) implies lex_le32(#[trigger] self.lc32(a), #[trigger] self.lc32(b)) by { lemma_bridge_pos(self, a); lemma_bridge_pos(self, b); if a < b { thm_mono(self, a as int, b as int); } }\n    }\n'
+                       % _subst(om.group(1)))
+            names.append('semtok:ok')
+    if len(names) < 7:
+        raise AnchorLost('bridge: expected 6 stand-in contracts and LineMap::ok in the semtok / conv preludes, found %s' % names)
+    return ''.join(out), names
+
+
 def assemble(ex, prelude, fns_spec, loops_spec):
     import weave
     used_fn, used_loop, defaulted = set(), set(), []
@@ -189,6 +232,8 @@ def assemble(ex, prelude, fns_spec, loops_spec):
     for it in ex['items']:
         if it.kind == 'fn':
             chunks.append((weave.emit_fn(it, fns_spec, loops_spec, used_fn, used_loop, defaulted), it))
+    btext, bnames = bridge()
+    chunks.append(('// ===== bridge (generated): ' + ', '.join(bnames) + '\n' + btext, None))
     chunks.append(('}\n} // verus!\nfn main() {}\n', None))
     for nm in fns_spec:
         if nm not in used_fn:
@@ -206,7 +251,7 @@ def assemble(ex, prelude, fns_spec, loops_spec):
             linemap.append((line, line + n - 1, it.path, it.line, it.name))
         text += chunk
         line += n
-    return text, linemap, {'contracted': sorted(used_fn), 'loops_contracted': sorted('%s#%d' % k for k in used_loop if len(k) == 2)}
+    return text, linemap, {'contracted': sorted(used_fn), 'loops_contracted': sorted('%s#%d' % k for k in used_loop if len(k) == 2), 'bridged_contracts': bnames}
 
 
 if __name__ == '__main__':
